@@ -138,20 +138,22 @@ impl PieceType for Pawn {
             let files = chess_lookup::ADJACENT_FILES[ep_file];
             let dest_rank = board.turn.enpassant_capture_rank();
             let dest = BitBoard::from(Pos::new(ep_file, dest_rank));
-            let capture_pawn = Pos::new(ep_file, rank);
+            let capture_pawn = BitBoard::from(Pos::new(ep_file, rank));
 
-            // if the opponent's pawn is checking the king (and the only piece checking the king)
-            // or if the there is no check and the opponent's pawn doesn't block a check against our king
-            // then we can capture it via en-passant with any unpinned pawn on the same rank and adjacent file as the
-            // opponent's pawn
-            if check_mask.contains(capture_pawn) && !board.pinned.contains(capture_pawn) {
-                for src in BitBoard::from(rank) & files & pieces & !board.pinned {
-                    unsafe {
-                        movelist.push_unchecked(LegalMovesAt {
-                            src,
-                            moves: dest,
-                            promotion: false,
-                        });
+            // An en-passant capture empties two squares (the capturing pawn's and the captured
+            // pawn's) and fills a third, so neither the pin information nor the check mask of
+            // the current position decides whether it is legal: look at the board after the capture.
+            if (dest & mask).any() {
+                for src in BitBoard::from(rank) & files & pieces {
+                    if board.is_safe_after_enpassant(king_sq, BitBoard::from(src), dest, capture_pawn)
+                    {
+                        unsafe {
+                            movelist.push_unchecked(LegalMovesAt {
+                                src,
+                                moves: dest,
+                                promotion: false,
+                            });
+                        }
                     }
                 }
             }
@@ -160,6 +162,30 @@ impl PieceType for Pawn {
 }
 
 impl Board {
+    /// Is the king of the side to move (on `king_sq`) safe once its pawn on `src` has captured
+    /// en passant onto `dest`, removing the opponent's pawn on `captured`?
+    fn is_safe_after_enpassant(
+        &self,
+        king_sq: Pos,
+        src: BitBoard,
+        dest: BitBoard,
+        captured: BitBoard,
+    ) -> bool {
+        let opp = self.raw[!self.turn] - captured;
+        let all = (self.raw.all() - src - captured) | dest;
+
+        let queens = self.raw[Piece::Queen];
+        let bishops = (self.raw[Piece::Bishop] | queens) & opp;
+        let rooks = (self.raw[Piece::Rook] | queens) & opp;
+        let knights = self.raw[Piece::Knight] & opp;
+        let pawns = self.raw[Piece::Pawn] & opp;
+
+        (chess_lookup::bishop_moves(king_sq, all) & bishops).none()
+            && (chess_lookup::rook_moves(king_sq, all) & rooks).none()
+            && (chess_lookup::knight_moves(king_sq) & knights).none()
+            && (chess_lookup::pawn_attacks_moves(king_sq, self.turn) & pawns).none()
+    }
+
     fn is_legal_king_position(&self, king_pos: Pos) -> bool {
         let bishop_rays = chess_lookup::bishop_rays(king_pos);
         let rook_rays = chess_lookup::rook_rays(king_pos);
